@@ -36,6 +36,12 @@ func c13Signature(class string, run OrderRun) string {
 	if len(run.Warmups) > 0 {
 		extra = "|process-reuse"
 	}
+	if run.Relocate != 0 {
+		extra += "|relocated-copy"
+	}
+	if run.GoMaxProcs != 0 {
+		extra += "|gomaxprocs"
+	}
 	return fmt.Sprintf("C13|%s|%s%s", class, s, extra)
 }
 
@@ -88,6 +94,12 @@ func (m *c13Min) minimise(c C13Case, msg string) (C13Case, string) {
 	}
 	if !c.Run.SkipDate {
 		try(func(d *C13Case) { d.Run.SkipDate = true })
+	}
+	if c.Run.Relocate != 0 {
+		try(func(d *C13Case) { d.Run.Relocate = 0 })
+	}
+	if c.Run.GoMaxProcs != 0 {
+		try(func(d *C13Case) { d.Run.GoMaxProcs = 0 })
 	}
 	if c.Run.Engine != c.PrimaryEngine {
 		try(func(d *C13Case) { d.Run.Engine = d.PrimaryEngine })
